@@ -205,6 +205,45 @@ fn run_case(env: &Env, b: &Builtin, recv: &V, args: &[&Arg], names: &[String], o
     }
     acc.case(asserted, if out1.is_err() && !out0.is_err() { "extra-kwarg-refused" } else { "extra-kwarg-ignored" });
 
+    // a filter on a STRING receiver, applied through the two block spellings: `{% set z | f %}text
+    // {% endset %}{{ z }}` and `{% filter f %}text{% endfilter %}` - the captured text is the
+    // receiver, the answer must be the one `{{ v | f }}` gives (seeded change C17-9: the first filter
+    // of a set block got a receiver without a source position, and a typed refusal panicked)
+    if b.kind == BKind::Filter
+        && let V::Str(text) = recv
+        && !text.contains("{{")
+        && !text.contains("{%")
+        && !text.contains("{#")
+    {
+        let mut kws: Vec<String> = vec![];
+        for (i, (kw, a)) in b.kws.iter().zip(args).enumerate() {
+            if a.v.is_some() {
+                kws.push(format!("{}=a{i}", kw.name));
+            }
+        }
+        let call = if kws.is_empty() { b.name.to_string() } else { format!("{}({})", b.name, kws.join(", ")) };
+        for (which, src3) in [
+            ("set-block", format!("{{% set zq | {call} %}}{text}{{% endset %}}{{{{ zq }}}}")),
+            ("filter-section", format!("{{% filter {call} %}}{text}{{% endfilter %}}")),
+        ] {
+            let out3 = engine::render_str(env.tera, &src3, &ctx, false);
+            if let Out::Panic(m) = &out3 {
+                acc.violation(format!("panic:{}", b.name), format!("the built-in panicked ({which} spelling): {m}"), || case_json(b, &src3, &binds));
+            } else if oracle::coarse(b.name, &out3) != oracle::coarse(b.name, &out0) {
+                acc.violation(
+                    format!("block-spelling-changes-result:{}", b.name),
+                    format!("`{{{{ v | {call} }}}}` gives {}, the {which} spelling gives {}", oracle::coarse(b.name, &out0), oracle::coarse(b.name, &out3)),
+                    || {
+                        let mut j = case_json(b, &src3, &binds);
+                        j["variable_spelling"] = json!(src0);
+                        j
+                    },
+                );
+            }
+            acc.case(asserted, &format!("{which}-spelling:compared"));
+        }
+    }
+
     // the same call in another spelling: receiver and arguments written as LITERALS wherever the
     // language has one (constants take another route through the compiler than variables) and
     // the keyword arguments in REVERSE order - the answer must be the same
